@@ -1,5 +1,7 @@
 import AFProofs.Lemmas.Migrate
+import AFProofs.Lemmas.MigrateRows
 import AFModel.Generated.C19
+import AFModel.MigrateFeat
 
 /-!
 # C19 — opening an older database migrates it exactly once to the current schema
@@ -278,5 +280,464 @@ example : (runHistory Cfg.fixed table orm none [false, true, false]).map (·.2) 
 /-- `never_stamped_refuted` has instances: the oldest schema with an empty `revision` table -/
 example : (session Cfg.pinned pinnedTable orm (some { schema := base, rev := .empty }) true).1.rev = .empty := by
   decide
+
+/-! ## Part 4 — row contents (`AFModel/MigrateRows.lean`: `sessionR` / `runHistoryR` / `interruptedR`)
+
+Tables carry their rows (finite maps column ↦ value, `none` = `NULL`). Generic in the step list, the schema, the
+rows, the revision-table state and the number of opens. -/
+
+/-- **the row-level model refines the name-level one**: forgetting the rows of any history of opens gives
+exactly `runHistory` — so every theorem of parts 1–3 holds for the model with rows (any `Cfg`). -/
+theorem rows_model_refines (cfg : Cfg) (tbl : Table) (orm : Schema) (file : Option RStore) (h : List Bool) :
+    (runHistoryR cfg tbl orm file h).map (fun x => (x.1.store, x.2))
+      = runHistory cfg tbl orm (file.map RStore.store) h :=
+  (runHistoryR_proj cfg tbl orm file h).symm
+
+/-- the same for an interrupted open -/
+theorem interrupted_rows_model_refines (tbl : Table) (s : RStore) (j : Nat) :
+    ((interruptedR tbl s j).1.store, (interruptedR tbl s j).2) = interrupted tbl s.store j :=
+  (interruptedR_proj tbl s j).symm
+
+/-- **closed form of the rows**: the statement loop leaves, in every table, the old rows — same number, same
+order — each rewritten by the statements that succeeded (`ADD`: `NULL` appended, `RENAME`: key renamed,
+`DROP`: entry removed); failed statements and `CREATE TABLE` touch no row. -/
+theorem rows_closed_form (d : Data) (l : List Stmt) (t : String) :
+    rowsOf (runStmtsR d l).1 t = (rowsOf d t).map (logOnRow t (runStmtsR d l).2) :=
+  rowsOf_runStmtsR d l t
+
+/-- a database stamped with the current revision is not touched — no row either -/
+theorem open_current_noop_rows (tbl : Table) (orm : Schema) (hw : tbl.WF) (hne : tbl.steps ≠ []) (s : RStore)
+    (hs : s.rev = .row (some (latestId tbl))) (c : Bool) :
+    sessionR Cfg.fixed tbl orm (some s) c = (s, []) := by
+  rw [sessionR_fixed tbl orm hne s c, hs]
+  simp [ridOf, getSteps_latest tbl hw hne]
+
+/-- **the revision table holds exactly one row, with the current revision**, after every open of any
+database (`Rev.row` is "exactly one row"; `noTable`, `empty` are the other shapes) -/
+theorem revision_single_row (tbl : Table) (orm : Schema) (hw : tbl.WF) (hne : tbl.steps ≠ [])
+    (file : Option RStore) (c : Bool) :
+    (sessionR Cfg.fixed tbl orm file c).1.rev = .row (some (latestId tbl)) := by
+  have h := sessionR_proj Cfg.fixed tbl orm file c
+  have h2 := every_open_ends_current tbl orm hw hne (file.map RStore.store) c
+  rw [h] at h2
+  exact h2
+
+/-- **fixed point at row level**: in any history of opens of any database (or of no file), every use after
+the first attempts nothing and leaves the file — schema, stamp and every row — exactly as the first left it. -/
+theorem rows_fixed_point (tbl : Table) (orm : Schema) (hw : tbl.WF) (hne : tbl.steps ≠ [])
+    (file : Option RStore) (c : Bool) (h : List Bool) :
+    ∀ x ∈ (runHistoryR Cfg.fixed tbl orm file (c :: h)).tail, x = ((sessionR Cfg.fixed tbl orm file c).1, []) := by
+  simp only [runHistoryR, List.tail_cons]
+  have key : ∀ (s : RStore), s.rev = .row (some (latestId tbl)) →
+      ∀ x ∈ runHistoryR Cfg.fixed tbl orm (some s) h, x = (s, []) := by
+    induction h with
+    | nil => intro s _ x hx; simp [runHistoryR] at hx
+    | cons c' rest ih =>
+      intro s hs x hx
+      simp only [runHistoryR, open_current_noop_rows tbl orm hw hne s hs c', List.mem_cons] at hx
+      rcases hx with hx | hx
+      · exact hx
+      · exact ih s hs x hx
+  exact key _ (revision_single_row tbl orm hw hne file c)
+
+/-- … hence after any history of at least one open the file is what the first open left -/
+theorem rows_after_any_history (tbl : Table) (orm : Schema) (hw : tbl.WF) (hne : tbl.steps ≠ [])
+    (file : Option RStore) (c : Bool) (h : List Bool) :
+    ∀ x ∈ runHistoryR Cfg.fixed tbl orm file (c :: h), x.1 = (sessionR Cfg.fixed tbl orm file c).1 := by
+  intro x hx
+  have hx' : x = sessionR Cfg.fixed tbl orm file c ∨ x ∈ (runHistoryR Cfg.fixed tbl orm file (c :: h)).tail := by
+    simpa [runHistoryR] using hx
+  rcases hx' with rfl | hx'
+  · rfl
+  · rw [rows_fixed_point tbl orm hw hne file c h x hx']
+
+/-- n further opens change no row -/
+theorem reopen_rows_fixed_point (tbl : Table) (orm : Schema) (hw : tbl.WF) (hne : tbl.steps ≠ [])
+    (file : Option RStore) (c : Bool) (n : Nat) :
+    reopenR Cfg.fixed tbl orm (sessionR Cfg.fixed tbl orm file c).1 n = (sessionR Cfg.fixed tbl orm file c).1 := by
+  induction n with
+  | zero => rfl
+  | succ n ih =>
+    simp only [reopenR]
+    rw [open_current_noop_rows tbl orm hw hne _ (revision_single_row tbl orm hw hne file c) false]
+    exact ih
+
+/-- one open of an existing database: its tables hold the old rows, rewritten by one function per table,
+which keeps the value of every column that no step renames away or drops -/
+theorem session_rows_preserved (tbl : Table) (orm : Schema) (hne : tbl.steps ≠ []) (s : RStore)
+    (hd : wfData s.data = true) (t : String) (c0 : Bool) :
+    ∃ f : Row → Row, rowsOf (sessionR Cfg.fixed tbl orm (some s) c0).1.data t = (rowsOf s.data t).map f ∧
+      ∀ c, (∀ st ∈ stmtsOf tbl.steps, st.removes t c = false) →
+        ∀ r ∈ rowsOf s.data t, ∀ v, cellOf r c = some v → cellOf (f r) c = some v := by
+  rw [sessionR_fixed tbl orm hne s c0]
+  by_cases he : (getSteps tbl (ridOf s.rev)).isEmpty
+  · exact ⟨id, by simp [he], fun _ _ _ _ _ hv => hv⟩
+  · refine ⟨logOnRow t (runStmtsR s.data (stmtsOf (getSteps tbl (ridOf s.rev)))).2, ?_, ?_⟩
+    · simp only [he, Bool.false_eq_true, if_false]
+      exact rowsOf_runStmtsR _ _ t
+    · intro c hrem r hr v hv
+      exact cell_preserved s.data _ t c hd
+        (fun st hst => hrem st (stmtsOf_subset tbl _ st hst)) r hr v hv
+
+/-- **existing fits are still readable — row level.** Any database whose rows fit its columns, any stamp, any
+history of one or more opens (caller commits or not): at every point of the history every table holds exactly
+its old rows, in order, and every old value of every column that no step renames away or drops is unchanged. -/
+theorem rows_preserved (tbl : Table) (orm : Schema) (hw : tbl.WF) (hne : tbl.steps ≠ []) (s : RStore)
+    (hd : wfData s.data = true) (t : String) (c0 : Bool) (h : List Bool) :
+    ∀ x ∈ runHistoryR Cfg.fixed tbl orm (some s) (c0 :: h),
+      ∃ f : Row → Row, rowsOf x.1.data t = (rowsOf s.data t).map f ∧
+        ∀ c, (∀ st ∈ stmtsOf tbl.steps, st.removes t c = false) →
+          ∀ r ∈ rowsOf s.data t, ∀ v, cellOf r c = some v → cellOf (f r) c = some v := by
+  intro x hx
+  rw [rows_after_any_history tbl orm hw hne (some s) c0 h x hx]
+  exact session_rows_preserved tbl orm hne s hd t c0
+
+/-- rows keep fitting their columns through any history of opens -/
+theorem rows_stay_wellformed (tbl : Table) (orm : Schema) (hw : tbl.WF) (hne : tbl.steps ≠ [])
+    (file : Option RStore) (hd : ∀ s, file = some s → wfData s.data = true) (c0 : Bool) (h : List Bool) :
+    ∀ x ∈ runHistoryR Cfg.fixed tbl orm file (c0 :: h), wfData x.1.data = true := by
+  intro x hx
+  rw [rows_after_any_history tbl orm hw hne file c0 h x hx]
+  cases file with
+  | none => rw [sessionR_fixed_fresh]; exact wf_emptyData orm
+  | some s =>
+    rw [sessionR_fixed tbl orm hne s c0]
+    split
+    · exact hd s rfl
+    · exact wf_runStmtsR _ _ (hd s rfl)
+
+/-- **new columns read `NULL` on old rows.** A column the database did not have before, and which is not the
+target of a rename, reads `NULL` in every row wherever it exists after any history of opens. -/
+theorem new_columns_null (tbl : Table) (orm : Schema) (hw : tbl.WF) (hne : tbl.steps ≠ []) (s : RStore)
+    (hd : wfData s.data = true) (t c : String) (hnew : hasCol (schemaOf s.data) t c = false)
+    (hren : (t, c) ∉ renameTargets tbl.steps) (c0 : Bool) (h : List Bool) :
+    ∀ x ∈ runHistoryR Cfg.fixed tbl orm (some s) (c0 :: h),
+      ∀ T, findT x.1.data t = some T → c ∈ T.cols → ∀ r ∈ T.rows, cellOf r c = some none := by
+  intro x hx
+  rw [rows_after_any_history tbl orm hw hne (some s) c0 h x hx, sessionR_fixed tbl orm hne s c0]
+  have h0 := nullAt_of_no_col s.data t c hnew
+  split
+  · exact h0
+  · apply nullAt_runStmtsR s.data _ t c hd _ h0
+    intro st hst a e
+    apply hren
+    have hm := stmtsOf_subset tbl _ st hst
+    simp only [renameTargets, List.mem_filterMap]
+    exact ⟨st, hm, by rw [e]⟩
+
+/-- a successful `RENAME COLUMN a TO b` moves the values: every row reads under `b` what it held under `a` -/
+theorem renamed_column_carries_values (d d' : Data) (t a b : String) (hd : wfData d = true)
+    (h : applyStmtR d (.renameColumn t a b) = some d') :
+    columnOf d' t b = columnOf d t a :=
+  rename_moves_cells d d' t a b hd h
+
+/-- **values follow renames.** One open of any database whose rows fit its columns: the value an old row holds
+at column `c` is found afterwards under the name `logTrack` computes from the statements that succeeded — the
+same name when no statement touched the column, the new name after `RENAME COLUMN`. (`rows_preserved` is the
+case "no step renames away or drops `c`".) -/
+theorem values_follow_renames (tbl : Table) (orm : Schema) (hw : tbl.WF) (hne : tbl.steps ≠ []) (s : RStore)
+    (hd : wfData s.data = true) (t : String) (c0 : Bool) (h : List Bool) :
+    ∀ x ∈ runHistoryR Cfg.fixed tbl orm (some s) (c0 :: h),
+      ∃ f : Row → Row, rowsOf x.1.data t = (rowsOf s.data t).map f ∧
+        ∀ c c', logTrack t (sessionR Cfg.fixed tbl orm (some s) c0).2 c = some c' →
+          ∀ r ∈ rowsOf s.data t, ∀ v, cellOf r c = some v → cellOf (f r) c' = some v := by
+  intro x hx
+  rw [rows_after_any_history tbl orm hw hne (some s) c0 h x hx, sessionR_fixed tbl orm hne s c0]
+  by_cases he : (getSteps tbl (ridOf s.rev)).isEmpty
+  · refine ⟨id, by simp [he], ?_⟩
+    intro c c' ht r _ v hv
+    simp only [he, if_true, logTrack, Option.some.injEq] at ht
+    subst ht
+    exact hv
+  · refine ⟨logOnRow t (runStmtsR s.data (stmtsOf (getSteps tbl (ridOf s.rev)))).2, ?_, ?_⟩
+    · simp only [he, Bool.false_eq_true, if_false]
+      exact rowsOf_runStmtsR _ _ t
+    · intro c c' ht r hr v hv
+      simp only [he, Bool.false_eq_true, if_false] at ht
+      exact cell_tracked s.data _ t c c' hd r hr v hv ht
+
+/-- the statements attempted (and which of them succeed) do not depend on the rows -/
+theorem log_independent_of_rows (cfg : Cfg) (tbl : Table) (orm : Schema) (s : RStore) (c : Bool) :
+    (sessionR cfg tbl orm (some s) c).2 = (session cfg tbl orm (some s.store) c).2 := by
+  have h := sessionR_proj cfg tbl orm (some s) c
+  simp only [Option.map_some] at h
+  rw [h]
+
+/-- a database created by `open_database` holds every mapped table, no row, and the stamp -/
+theorem fresh_db_no_rows (tbl : Table) (orm : Schema) (c : Bool) :
+    sessionR Cfg.fixed tbl orm none c = ({ data := emptyData orm, rev := .row (some (latestId tbl)) }, []) :=
+  sessionR_fixed_fresh tbl orm c
+
+/-- **interrupted open, row level.** When the process dies after `j` statements the file holds the old rows
+(rewritten by the statements that were durable — none when the open had to create the `revision` table, whose
+`INSERT` opened a transaction that is rolled back with everything after it), values of never-removed columns
+unchanged, rows still fitting their columns; so `rows_preserved` applies to the opens that follow. -/
+theorem interrupted_rows_preserved (tbl : Table) (s : RStore) (hd : wfData s.data = true) (t : String) (j : Nat) :
+    wfData (interruptedR tbl s j).1.data = true ∧
+    ∃ f : Row → Row, rowsOf (interruptedR tbl s j).1.data t = (rowsOf s.data t).map f ∧
+      ∀ c, (∀ st ∈ stmtsOf tbl.steps, st.removes t c = false) →
+        ∀ r ∈ rowsOf s.data t, ∀ v, cellOf r c = some v → cellOf (f r) c = some v := by
+  obtain ⟨d, rev⟩ := s
+  simp only at hd
+  cases rev with
+  | noTable =>
+    refine ⟨by simpa [interruptedR, readRevisionR, initRevisionTableR, RDb.work, RDb.ddl, RDb.dml, RDb.close] using hd,
+      id, by simp [interruptedR, readRevisionR, initRevisionTableR, RDb.work, RDb.ddl, RDb.dml, RDb.close],
+      fun _ _ _ _ _ hv => hv⟩
+  | empty =>
+    refine ⟨by simpa [interruptedR, readRevisionR, RDb.work, RDb.ddl, RDb.close] using wf_runStmtsR d _ hd,
+      logOnRow t (runStmtsR d ((stmtsOf (getSteps tbl none)).take j)).2,
+      by simpa [interruptedR, readRevisionR, RDb.work, RDb.ddl, RDb.close] using rowsOf_runStmtsR d _ t, ?_⟩
+    intro c hrem r hr v hv
+    exact cell_preserved d _ t c hd
+      (fun st hst => hrem st (stmtsOf_subset tbl _ st (List.mem_of_mem_take hst))) r hr v hv
+  | row rid =>
+    refine ⟨by simpa [interruptedR, readRevisionR, RDb.work, RDb.ddl, RDb.close] using wf_runStmtsR d _ hd,
+      logOnRow t (runStmtsR d ((stmtsOf (getSteps tbl rid)).take j)).2,
+      by simpa [interruptedR, readRevisionR, RDb.work, RDb.ddl, RDb.close] using rowsOf_runStmtsR d _ t, ?_⟩
+    intro c hrem r hr v hv
+    exact cell_preserved d _ t c hd
+      (fun st hst => hrem st (stmtsOf_subset tbl _ st (List.mem_of_mem_take hst))) r hr v hv
+
+/-- interrupted open: old values are found under the names computed from the statements that were durable -/
+theorem interrupted_values_tracked (tbl : Table) (s : RStore) (hd : wfData s.data = true) (t : String) (j : Nat) :
+    ∃ f : Row → Row, rowsOf (interruptedR tbl s j).1.data t = (rowsOf s.data t).map f ∧
+      ∀ c c', logTrack t (interruptedDurableLog tbl s j) c = some c' →
+        ∀ r ∈ rowsOf s.data t, ∀ v, cellOf r c = some v → cellOf (f r) c' = some v := by
+  obtain ⟨d, rev⟩ := s
+  simp only at hd
+  cases rev with
+  | noTable =>
+    refine ⟨id, by simp [interruptedR, readRevisionR, initRevisionTableR, RDb.work, RDb.ddl, RDb.dml, RDb.close], ?_⟩
+    intro c c' ht r _ v hv
+    simp only [interruptedDurableLog, logTrack, Option.some.injEq] at ht
+    subst ht
+    exact hv
+  | empty =>
+    refine ⟨logOnRow t (runStmtsR d ((stmtsOf (getSteps tbl none)).take j)).2,
+      by simpa [interruptedR, readRevisionR, RDb.work, RDb.ddl, RDb.close] using rowsOf_runStmtsR d _ t, ?_⟩
+    intro c c' ht r hr v hv
+    have ht' : logTrack t (runStmtsR d ((stmtsOf (getSteps tbl none)).take j)).2 c = some c' := by
+      simpa [interruptedDurableLog, interruptedR, readRevisionR, RDb.work, RDb.ddl, RDb.close] using ht
+    exact cell_tracked d _ t c c' hd r hr v hv ht'
+  | row rid =>
+    refine ⟨logOnRow t (runStmtsR d ((stmtsOf (getSteps tbl rid)).take j)).2,
+      by simpa [interruptedR, readRevisionR, RDb.work, RDb.ddl, RDb.close] using rowsOf_runStmtsR d _ t, ?_⟩
+    intro c c' ht r hr v hv
+    have ht' : logTrack t (runStmtsR d ((stmtsOf (getSteps tbl rid)).take j)).2 c = some c' := by
+      simpa [interruptedDurableLog, interruptedR, readRevisionR, RDb.work, RDb.ddl, RDb.close] using ht
+    exact cell_tracked d _ t c c' hd r hr v hv ht'
+
+/-- an interrupted open followed by any history of opens: still the old rows, old values unchanged -/
+theorem interrupted_then_opens_rows_preserved (tbl : Table) (orm : Schema) (hw : tbl.WF) (hne : tbl.steps ≠ [])
+    (s : RStore) (hd : wfData s.data = true) (t : String) (j : Nat) (c0 : Bool) (h : List Bool) :
+    ∀ x ∈ runHistoryR Cfg.fixed tbl orm (some (interruptedR tbl s j).1) (c0 :: h),
+      ∃ f : Row → Row, rowsOf x.1.data t = (rowsOf s.data t).map f ∧
+        ∀ c, (∀ st ∈ stmtsOf tbl.steps, st.removes t c = false) →
+          ∀ r ∈ rowsOf s.data t, ∀ v, cellOf r c = some v → cellOf (f r) c = some v := by
+  intro x hx
+  obtain ⟨hwf, f1, hf1, hp1⟩ := interrupted_rows_preserved tbl s hd t j
+  obtain ⟨f2, hf2, hp2⟩ := rows_preserved tbl orm hw hne _ hwf t c0 h x hx
+  refine ⟨f2 ∘ f1, by rw [hf2, hf1, List.map_map], ?_⟩
+  intro c hrem r hr v hv
+  exact hp2 c hrem (f1 r) (by rw [hf1]; exact List.mem_map_of_mem hr) v (hp1 c hrem r hr v hv)
+
+/-! ### the regenerated step list -/
+
+/-- the `revision`-table states a database of shape `v` is found in: no table, no row, `NULL`, an unknown id,
+the pinned id of its own revision -/
+def revStates (k : Nat) : List Rev :=
+  [.noTable, .empty, .row none, .row (some "0123456789abcdef0123456789abcdef")] ++
+    (if h : 0 < k ∧ k - 1 < revIds.length then [.row (some (revIds[k - 1]'h.2))] else [])
+
+
+/-- the only column that is the target of a rename (every other new column reads `NULL` on old rows) -/
+theorem rename_targets : renameTargets steps = [("object", "latent_samples_for_id")] := by decide
+
+/-- **every value of every mapped column survives**: instance of `rows_preserved` for the repository's step
+list and mapping -/
+theorem mapped_values_survive (s : RStore) (hd : wfData s.data = true) (c0 : Bool) (h : List Bool) :
+    ∀ tc ∈ orm.flatMap (fun (t, cs) => cs.map fun c => (t, c)),
+      ∀ x ∈ runHistoryR Cfg.fixed table orm (some s) (c0 :: h),
+        ∃ f : Row → Row, rowsOf x.1.data tc.1 = (rowsOf s.data tc.1).map f ∧
+          ∀ r ∈ rowsOf s.data tc.1, ∀ v, cellOf r tc.2 = some v → cellOf (f r) tc.2 = some v := by
+  intro tc htc x hx
+  obtain ⟨f, hf, hp⟩ := rows_preserved table orm table_wf steps_nonempty s hd tc.1 c0 h x hx
+  exact ⟨f, hf, hp tc.2 (orm_columns_never_removed tc htc)⟩
+
+/-- every historic shape that still has `object.latent_variables_for_id` and not yet the new name, in every
+state of its `revision` table: the first open moves the values to `latent_samples_for_id` … -/
+theorem latent_column_tracked :
+    ∀ v ∈ variants, ∀ rev ∈ revStates v.2.1, ∀ c : Bool,
+      hasCol v.2.2 "object" "latent_variables_for_id" = true →
+      hasCol v.2.2 "object" "latent_samples_for_id" = false →
+      logTrack "object" (session Cfg.fixed table orm (some { schema := v.2.2, rev := rev }) c).2
+        "latent_variables_for_id" = some "latent_samples_for_id" := by
+  decide +kernel
+
+/-- … so **latent samples stored under the old column name stay readable**: whatever rows such a database
+holds, after any history of opens every `object` row reads under `latent_samples_for_id` what it held under
+`latent_variables_for_id` -/
+theorem latent_values_survive_rename (s : RStore) (hd : wfData s.data = true)
+    (v : String × Nat × Schema) (hv : v ∈ variants) (hs : schemaOf s.data = v.2.2)
+    (hrev : s.rev ∈ revStates v.2.1)
+    (hold : hasCol v.2.2 "object" "latent_variables_for_id" = true)
+    (hnew : hasCol v.2.2 "object" "latent_samples_for_id" = false) (c0 : Bool) (h : List Bool) :
+    ∀ x ∈ runHistoryR Cfg.fixed table orm (some s) (c0 :: h),
+      ∃ f : Row → Row, rowsOf x.1.data "object" = (rowsOf s.data "object").map f ∧
+        ∀ r ∈ rowsOf s.data "object", ∀ w, cellOf r "latent_variables_for_id" = some w →
+          cellOf (f r) "latent_samples_for_id" = some w := by
+  intro x hx
+  obtain ⟨f, hf, hp⟩ := values_follow_renames table orm table_wf steps_nonempty s hd "object" c0 h x hx
+  refine ⟨f, hf, hp "latent_variables_for_id" "latent_samples_for_id" ?_⟩
+  rw [log_independent_of_rows]
+  have := latent_column_tracked v hv s.rev hrev c0 hold hnew
+  simpa [RStore.store, hs] using this
+
+/-- `latent_values_survive_rename` has instances: shape `A7` -/
+example : ∃ v ∈ variants, v.1 = "A7" ∧ hasCol v.2.2 "object" "latent_variables_for_id" = true ∧
+    hasCol v.2.2 "object" "latent_samples_for_id" = false ∧ wfData (sampleData v.2.2) = true ∧
+    schemaOf (sampleData v.2.2) = v.2.2 := by decide
+
+/-- non-vacuity and a concrete reading of the row theorems: shape `A7` (column `latent_variables_for_id`)
+stamped with revision 7, one row per table holding the column's name in every column. After `open; close;
+open; commit; close` the `object` row reads its old values under the old names, the old value of the renamed
+column under the new name, nothing under the stale name; `named_instance` got `instance_id = NULL`. -/
+example : ∃ v ∈ variants, v.1 = "A7" ∧
+    let s : RStore := { data := sampleData v.2.2, rev := .row (some (table.revIds[6]'(by decide))) }
+    wfData s.data = true ∧
+    ∀ x ∈ runHistoryR Cfg.fixed table orm (some s) [false, true],
+      columnOf x.1.data "object" "class_path" = [some (some "class_path")] ∧
+      columnOf x.1.data "object" "latent_samples_for_id" = [some (some "latent_variables_for_id")] ∧
+      columnOf x.1.data "object" "latent_variables_for_id" = [none] ∧
+      columnOf x.1.data "named_instance" "instance_id" = [some none] ∧
+      columnOf x.1.data "fit" "name" = [some (some "name")] := by
+  decide
+
+/-- `new_columns_null` has instances: the oldest shape lacks `fit.name`, which is no rename target -/
+example : hasCol (schemaOf (sampleData base)) "fit" "name" = false ∧ ("fit", "name") ∉ renameTargets steps ∧
+    columnOf (sessionR Cfg.fixed table orm (some { data := sampleData base, rev := .noTable }) false).1.data
+      "fit" "name" = [some none] := by
+  decide
+
+/-- an interrupted open of a database without `revision` table loses its statements (rolled back with the
+`INSERT` that opened the transaction); with a `revision` table they are durable one by one -/
+example :
+    columnOf (interruptedR table { data := sampleData base, rev := .noTable } 2).1.data "fit" "name" = [none] ∧
+    columnOf (interruptedR table { data := sampleData base, rev := .empty } 2).1.data "fit" "name" = [some none] ∧
+    columnOf (interruptedR table { data := sampleData base, rev := .empty } 2).1.data "fit" "id" = [some (some "id")] := by
+  decide
+
+/-! ## Part 5 — "all current features work on it" (`AFModel/MigrateFeat.lean`: `usable`)
+
+A feature is usable on a schema when every table/column of the mapped classes it goes through exists
+(`Generated.features`, regenerated from the mappers; the harness uses each feature on real files, migrated and
+not, and compares). -/
+
+/-- **a feature that works keeps working**: a migration (any statements, from any schema) that does not rename
+away or drop a column the feature needs leaves it usable -/
+theorem usable_stays (s : Schema) (l : List Stmt) (needs : Needs) (hu : usable s needs = true)
+    (hr : ∀ tc ∈ needs, ∀ st ∈ l, st.removes tc.1 tc.2 = false) :
+    usable (runStmts s l).1 needs = true := by
+  simp only [usable, List.all_eq_true] at hu ⊢
+  intro tc htc
+  exact hasCol_runStmts s l tc.1 tc.2 (hu tc htc) (hr tc htc)
+
+/-- a schema that holds the whole mapping supports every feature whose needs lie inside the mapping -/
+theorem usable_of_covers (s orm : Schema) (needs : Needs) (hc : covers s orm = true)
+    (hn : ∀ tc ∈ needs, tc ∈ columnsOf orm) : usable s needs = true := by
+  simp only [usable, List.all_eq_true]
+  intro tc htc
+  have hm := hn tc htc
+  simp only [columnsOf, List.mem_flatMap, List.mem_map] at hm
+  obtain ⟨p, hp, c, hcm, hpc⟩ := hm
+  simp only [covers, List.all_eq_true] at hc
+  have := hc p hp c hcm
+  rw [← hpc]
+  exact this
+
+/-- **why attempting a step again is harmless**: whether `ALTER TABLE t ADD c` succeeds or fails with "duplicate
+column", afterwards the table has the column - for every schema in which the table exists -/
+theorem add_column_ensures (s : Schema) (t c : String) (ht : (colsOf s t).isSome = true) :
+    hasCol (runStmts s [.addColumn t c]).1 t c = true := by
+  cases h : colsOf s t with
+  | none => simp [h] at ht
+  | some cs =>
+    by_cases hc : c ∈ cs
+    · simp [runStmts, applyStmt, h, hc, hasCol]
+    · simp [runStmts, applyStmt, h, hc, hasCol, colsOf_mapTable_same]
+
+/-- … and whether `CREATE TABLE t` succeeds or fails with "already exists", afterwards the table exists -/
+theorem create_table_ensures (s : Schema) (t : String) (cols : List String) :
+    (colsOf (runStmts s [.createTable t cols]).1 t).isSome = true := by
+  cases h : colsOf s t with
+  | some cs => simp [runStmts, applyStmt, h]
+  | none =>
+    simp only [runStmts, applyStmt, h]
+    induction s with
+    | nil => simp [colsOf]
+    | cons p rest ih =>
+      obtain ⟨n, cs⟩ := p
+      by_cases hn : n = t
+      · simp [colsOf, hn]
+      · simp only [colsOf, hn, if_false] at h
+        simp only [List.cons_append, colsOf, hn, if_false]
+        exact ih h
+
+/-- what the features need is part of the mapping (so `steps_cover_orm` speaks about them) -/
+theorem features_within_mapping : ∀ f ∈ features, ∀ tc ∈ f.2, tc ∈ columnsOf orm := by decide
+
+/-- no step renames away or drops anything a feature needs -/
+theorem feature_columns_never_removed :
+    ∀ f ∈ features, ∀ tc ∈ f.2, ∀ st ∈ stmtsOf steps, st.removes tc.1 tc.2 = false := by decide
+
+/-- **every feature works after the first open** of every historic database shape in every state of its
+`revision` table, whether or not the caller commits -/
+theorem features_usable_after_open :
+    ∀ v ∈ variants, ∀ rev ∈ revStates v.2.1, ∀ c : Bool,
+      allUsable (session Cfg.fixed table orm (some { schema := v.2.2, rev := rev }) c).1.schema features = true := by
+  decide +kernel
+
+/-- … and after any number of further opens (fixed point) -/
+theorem features_usable_after_any_history (v : String × Nat × Schema) (hv : v ∈ variants) (rev : Rev)
+    (hrev : rev ∈ revStates v.2.1) (c : Bool) (h : List Bool) :
+    ∀ x ∈ runHistory Cfg.fixed table orm (some { schema := v.2.2, rev := rev }) (c :: h),
+      allUsable x.1.schema features = true := by
+  intro x hx
+  have hx' : x = session Cfg.fixed table orm (some { schema := v.2.2, rev := rev }) c ∨
+      x ∈ (runHistory Cfg.fixed table orm (some { schema := v.2.2, rev := rev }) (c :: h)).tail := by
+    simpa [runHistory] using hx
+  rcases hx' with rfl | hx'
+  · exact features_usable_after_open v hv rev hrev c
+  · rw [history_fixed_point table orm table_wf steps_nonempty _ c h x hx']
+    exact features_usable_after_open v hv rev hrev c
+
+/-- a database created by `open_database` supports every feature -/
+theorem features_usable_on_fresh (c : Bool) :
+    allUsable (session Cfg.fixed table orm none c).1.schema features = true := by
+  rw [fresh_db_stamped]
+  decide
+
+/-- also after an interrupted first open followed by a complete one -/
+theorem features_usable_after_interrupted_open :
+    ∀ v ∈ variants, ∀ j ∈ List.range (stmtsOf steps).length.succ,
+      allUsable (schemaAfter (runStmts v.2.2 ((stmtsOf steps).take j)).1 steps) features = true ∧
+      allUsable (schemaAfter (runStmts v.2.2 ((stmtsOf (steps.drop v.2.1)).take j)).1 (steps.drop v.2.1)) features
+        = true := by
+  decide +kernel
+
+/-- **the migration is needed** (non-vacuity of the theorems above): on every historic shape older than
+revision 8 *no* feature is usable before the open — the `Aggregator` cannot even load a fit, because the
+polymorphic `object` table lacks `latent_samples_for_id` -/
+theorem old_shapes_support_no_feature :
+    ∀ v ∈ variants, v.2.1 < 8 → ∀ f ∈ features, usable v.2.2 f.2 = false := by decide
+
+/-- shapes made by the pinned code at revision 8 lack exactly the named instances -/
+example : ∃ v ∈ variants, v.1 = "A8" ∧
+    (usableEach v.2.2 features).filter (fun p => !p.2) = [("named_instance", false)] := by decide
+
+/-- `usable_stays` has instances: JSON storage on the revision-8 shape through the remaining steps -/
+example : ∃ v ∈ variants, v.1 = "A8" ∧ ∃ f ∈ features, f.1 = "json" ∧ usable v.2.2 f.2 = true ∧
+    usable (runStmts v.2.2 (stmtsOf (steps.drop 8))).1 f.2 = true := by decide
 
 end AF.C19
